@@ -301,6 +301,10 @@ OCCUPIED = {'restore-overwrite': ['e1', 'e3', 'e4'], 'restore-overwrite-one': ['
 # the same with e3 a symlink to an EXISTING directory outside the trash (it must be unlinked, never followed or "rmtree"d)
 for _k in ('empty-all', 'rm-all', 'restore-all'):
     PURGE_SCENARIOS[_k + '@dirlink'] = PURGE_SCENARIOS[_k]
+# files/ of the trash directory is itself a symbolic link to a directory elsewhere (payloads kept on another disk), and the
+# directory the command is started from holds entries named like the payloads: they are not what is to be purged
+for _k in ('empty-all', 'rm-all'):
+    PURGE_SCENARIOS[_k + '@fileslink'] = PURGE_SCENARIOS[_k]
 
 
 # names under files/ and info/: ordinary ones, and one that consists of dots only
@@ -311,7 +315,7 @@ class PurgeBox(object):
     """home trash with four entries: e1 file, e2 deep tree (restores across volumes), e3 link, e4 file on the other
     volume; two orphans (a file and a tree)"""
 
-    def __init__(self, uid=1000, link='dangling', occupied=()):
+    def __init__(self, uid=1000, link='dangling', occupied=(), fileslink=False):
         self.base = _tempfile.mkdtemp(prefix='vp-', dir=_world.SHM)
         self.occupied = list(occupied)
         self.occ_dig = {}
@@ -323,8 +327,24 @@ class PurgeBox(object):
         os.makedirs(os.path.join(self.root, 'cwd'))
         self.mounts = [self.root, os.path.join(self.root, 'm1')]
         self.tdir = os.path.join(self.home, '.local', 'share', 'Trash')
-        os.makedirs(os.path.join(self.tdir, 'files'))
+        if fileslink:
+            store = os.path.join(self.root, 'store', 'trash-files')
+            os.makedirs(store)
+            os.makedirs(self.tdir)
+            os.symlink(store, os.path.join(self.tdir, 'files'))
+        else:
+            os.makedirs(os.path.join(self.tdir, 'files'))
         os.makedirs(os.path.join(self.tdir, 'info'))
+        self.bystanders = []
+        if fileslink:
+            for e in ('e1', 'e2', 'e4', 'o1', 'o2'):
+                b = os.path.join(self.root, 'cwd', SLOTNAME.get(e, 'slot-' + e))
+                if e in ('e2', 'o2'):
+                    os.makedirs(os.path.join(b, 'keep'))
+                else:
+                    with open(b, 'w') as fh:
+                        fh.write('not in the trash')
+                self.bystanders.append(b)
         self.dest = {'e1': os.path.join(self.root, 'r', 'sub', 'name e1'), 'e2': os.path.join(self.root, 'm1', 'r', 'tree-e2'),
                      'e3': os.path.join(self.root, 'r', 'link-e3'), 'e4': os.path.join(self.root, 'm1', 'file-e4')}
         self.dates = {'e1': '2020-01-01T00:00:01', 'e2': '2020-01-01T00:00:02', 'e3': '2020-01-05T00:00:03', 'e4': '2020-01-05T00:00:04'}
@@ -388,6 +408,8 @@ class PurgeBox(object):
         return runner.run('trash-' + cmd, list(args), os.path.join(self.root, 'cwd'), self.env(), shim_cfg=self.shim(**shimkw), timeout=20)
 
     def outside_intact(self):
+        if any(not os.path.lexists(b) or (os.path.isdir(b) and not os.path.isdir(os.path.join(b, 'keep'))) for b in self.bystanders):
+            return False
         return self.keep is None or (os.path.isdir(self.keep) and
                                      _world.digest_of_sub(_world.snapshot_sub(os.fsencode(self.keep))) == self.keep_dig)
 
@@ -413,7 +435,7 @@ class PurgeBox(object):
 def purge_baseline(scen):
     runner.prepare()
     cmd, args, sel = PURGE_SCENARIOS[scen]
-    box = PurgeBox(link='dir' if scen.endswith('@dirlink') else 'dangling', occupied=OCCUPIED.get(scen, ()))
+    box = PurgeBox(link='dir' if scen.endswith('@dirlink') else 'dangling', occupied=OCCUPIED.get(scen, ()), fileslink=scen.endswith('@fileslink'))
     try:
         res = box.run(cmd, args)
         ops = [e for e in res['trace'] if 'seq' in e]
@@ -427,7 +449,7 @@ def run_purge_crash(args):
     scen, k = args
     runner.prepare()
     cmd, argv, sel = PURGE_SCENARIOS[scen]
-    box = PurgeBox(link='dir' if scen.endswith('@dirlink') else 'dangling', occupied=OCCUPIED.get(scen, ()))
+    box = PurgeBox(link='dir' if scen.endswith('@dirlink') else 'dangling', occupied=OCCUPIED.get(scen, ()), fileslink=scen.endswith('@fileslink'))
     try:
         res = box.run(cmd, argv, crash_at=k)
         killed = res['exit'] == 137
@@ -460,7 +482,7 @@ def purge_state_trace(args):
     scen, permute_seed = args
     runner.prepare()
     cmd, argv, sel = PURGE_SCENARIOS[scen]
-    box = PurgeBox(link='dir' if scen.endswith('@dirlink') else 'dangling', occupied=OCCUPIED.get(scen, ()))
+    box = PurgeBox(link='dir' if scen.endswith('@dirlink') else 'dangling', occupied=OCCUPIED.get(scen, ()), fileslink=scen.endswith('@fileslink'))
     try:
         import select as _select
         from harness import oplevel
